@@ -74,6 +74,14 @@ def gen_cases(tier, seed):
         cases.append({"dtype": "uint64", "block": [40, 41, 42], "shape": [1, 43, 45, 41],
                       "nlab": "all", "mag": "big53", "layout": "F",
                       "style": {"tables_after_values": True}, "vseed": 7})
+    # directed: a production-sized chunk (64^3 voxels, 8^3 blocks = 512 blocks per channel)
+    cases.append({"dtype": "uint64", "block": [8, 8, 8], "shape": [1, 64, 64, 64],
+                  "nlab": 40, "mag": "big53", "layout": "C", "style": {"share_tables": True},
+                  "vseed": 11})
+    if tier == "thorough":
+        cases.append({"dtype": "uint32", "block": [8, 8, 8], "shape": [2, 64, 64, 64],
+                      "nlab": 4096, "mag": "u32", "layout": "F",
+                      "style": {"tables_after_values": True, "gaps": True}, "vseed": 12})
     # directed: 256/257 and 16/17 labels inside one block (bit-width boundaries)
     for nl, blk in [(2, [2, 1, 1]), (3, [3, 1, 1]), (4, [2, 2, 1]), (5, [5, 1, 1]),
                     (16, [4, 4, 1]), (17, [17, 1, 1]), (256, [16, 16, 1]), (257, [16, 17, 1]),
@@ -129,7 +137,7 @@ def run_case(case):
            "labels_ge_2_32": int(max(vals) >= 2 ** 32),
            "labels_gt_2_53": int(max(vals) > 2 ** 53),
            "tables_shared_by_encoder": 0, "alt_layouts_decoded": 0,
-           "multi_channel": int(C > 1)}
+           "multi_channel": int(C > 1), "chunk_of_64_cubed": int(Z * Y * X >= 64 ** 3)}
     v = []
     ctx = (f"{case['dtype']} shape(C,Z,Y,X)={case['shape']} block(x,y,z)={block} "
            f"labels={case['nlab']}/{case['mag']} layout={case['layout']}")
@@ -168,7 +176,7 @@ def run_case(case):
         v.append({"kind": "package-decoder-raised",
                   "detail": f"{ctx}: {type(exc).__name__}: {exc}"})
     # (c) the package decoder on reference-encoded data (other valid layouts)
-    if case["style"] is not None and C * Z * Y * X <= 40000 * 4:
+    if case["style"] is not None and C * Z * Y * X <= 64 ** 3 * 2:
         alt = cseg_spec.encode(nested, (C, Z, Y, X), block, dt.itemsize, case["style"], rnd)
         chk, _ = cseg_spec.decode(alt, (C, Z, Y, X), block, dt.itemsize)
         if chk != nested:
@@ -207,4 +215,5 @@ def gates(obs, tier):
         "shared_tables_emitted": obs.get("tables_shared_by_encoder", 0) > 10,
         "alternative_layouts_decoded": obs.get("alt_layouts_decoded", 0) > 50,
         "padding_function_reached": calls.get("pad_block", 0) > 0,
+        "production_sized_chunk": obs.get("chunk_of_64_cubed", 0) > 0,
     }
